@@ -306,6 +306,12 @@ def receiveLazy : Nat → List Chunk → List Event
       let (a, ord) := seqUpdate ack s
       if ord = .current then .chunk c.data true :: receiveLazy a cs else receiveLazy ack cs
 
+/-- the payloads of the vital-chunk events, in order (what the application sees of the vital stream) -/
+def vitalPayloads : List Event → List Bytes
+  | [] => []
+  | .chunk d true :: es => d :: vitalPayloads es
+  | _ :: es => vitalPayloads es
+
 /-- `online.ack_chunks(Sequence::from_u16(ack))` at the start of `feed` -/
 def Online.feedAck (o : Online) (ack : Nat) : Except Fail Online :=
   if ack ≥ seqMod then .error (.panic "Sequence::from_u16(ack)") else .ok (o.ackChunks ack)
